@@ -36,6 +36,39 @@ def lean_str_bytes(s):
 
 
 # ----------------------------------------------------------------------------------------------
+# small functions whose Lean model is written by hand (lean/Cppcms/C01/Request.lean, Http.lean, Cgi.lean): the model is
+# valid for exactly this source text.  Any edit of one of them is reported as a broken tie (the hand-written model has to
+# be re-validated against the new text and the pin updated); what *is* regenerated from these functions (constants,
+# guards) is extracted separately below.
+# ----------------------------------------------------------------------------------------------
+PINNED = {
+    "protocol::skip_ws": "c0bbf4bc6fb9c8cd",
+    "protocol::tocken": "47860161359f250f",
+    "protocol::unquote": "f3b7bc12c15b940d",
+    "skip_after_period": "0a7f943ea75d0918",
+    "request::read_key_value": "25873f40fdaade8e",
+    "request::parse_cookies": "9a19363d659e8cc5",
+    "request::parse_form_urlencoded": "382ac804bb189a1f",
+    "request::get_buffer": "d06805e5cc2c0e47",
+    "util::urldecode": "6d7b574f2b877254",
+    "http::parse_single_header": "18de83e0cf4451f8",
+    "context::on_headers_ready": "15b89fe8400588ca",
+}
+
+
+def pin(name, body):
+    import hashlib
+    norm = re.sub(r"\s+", " ", body).strip()
+    h = hashlib.sha1(norm.encode()).hexdigest()[:16]
+    if os.environ.get("C01_PRINT_PINS"):
+        print("PIN", name, h)
+        return
+    if PINNED.get(name) != h:
+        raise Untranslatable(f"{name}: the source text changed (pin {PINNED.get(name)} -> {h}); its Lean model is hand-written "
+                             f"and has to be re-validated against the new text")
+
+
+# ----------------------------------------------------------------------------------------------
 # exit discipline of callbacks
 # ----------------------------------------------------------------------------------------------
 CONT_CALLS = ["h", "async_read_headers", "async_read_record", "async_send_respnse", "async_read_some_headers",
@@ -501,6 +534,18 @@ def main(repo, lean):
     smap = rd(repo, "private/string_map.h")
     cgi = rd(repo, "src/cgi_api.cpp")
     ctx = rd(repo, "src/http_context.cpp")
+    # hand-modelled functions: pinned source text
+    pin("protocol::skip_ws", function_body(proto, r"It\s+skip_ws\s*\(\s*It\s+p\s*,\s*It\s+end\s*\)"))
+    pin("protocol::tocken", function_body(proto, r"It\s+tocken\s*\(\s*It\s+begin\s*,\s*It\s+end\s*\)"))
+    pin("protocol::unquote", function_body(proto, r"std::string\s+unquote\s*\(\s*It\s*&\s*begin\s*,\s*It\s+end\s*\)"))
+    pin("skip_after_period", function_body(req, r"void\s+skip_after_period\s*\("))
+    pin("request::read_key_value", function_body(req, r"bool\s+request::read_key_value\s*\("))
+    pin("request::parse_cookies", function_body(req, r"bool\s+request::parse_cookies\s*\("))
+    pin("request::parse_form_urlencoded", function_body(req, r"bool\s+request::parse_form_urlencoded\s*\("))
+    pin("request::get_buffer", function_body(req, r"request::get_buffer\s*\(\s*\)"))
+    pin("util::urldecode", function_body(util, r"std::string\s+urldecode\s*\(\s*char\s+const\s*\*\s*begin\s*,\s*char\s+const\s*\*\s*end\s*\)\s*\{"))
+    pin("http::parse_single_header", function_body(http, r"virtual\s+bool\s+parse_single_header\s*\("))
+    pin("context::on_headers_ready", function_body(ctx, r"int\s+context::on_headers_ready\s*\(\s*\)"))
     o = []
     w = o.append
     w("/- GENERATED by translate/c01.py from src/scgi_api.cpp, src/fastcgi_api.cpp, src/http_api.cpp, "
